@@ -104,6 +104,24 @@ pub static C20_NET: Scenario = Scenario {
     stubbed: super::STUB_NET,
 };
 
+/// Identities of the simulated senders: all bytes different from one another, or - in part of the
+/// runs - identical except for two bytes near the end (whatever a layer keys its per-peer state
+/// by, two peers are two peers).
+fn peer_ids(w: &World, n: usize) -> Vec<PeerId> {
+    if w.flag("ids_share_their_leading_bytes", 0.4) {
+        (0..n)
+            .map(|i| {
+                let mut a = [0xAB; 32];
+                a[20] = (i as u8).wrapping_mul(7);
+                a[31] = i as u8 + 1;
+                PeerId(a)
+            })
+            .collect()
+    } else {
+        (0..n).map(|i| PeerId([i as u8 + 1; 32])).collect()
+    }
+}
+
 // ---------------------------------------------------------------------------------------------
 // inner service with a per-peer gauge
 // ---------------------------------------------------------------------------------------------
@@ -237,7 +255,7 @@ fn run_c18_direct(input: RunInput) -> ScenFuture {
         let n_req = w.param("requests", 1, if w.tier == Tier::Quick { 120 } else { 250 }) as u64;
         let spread_ms = w.param("spread_ms", 0, 400) as u64;
         let mut r = w.rng("wl:c18");
-        let peers: Vec<PeerId> = (0..n_peers).map(|i| PeerId([i as u8 + 1; 32])).collect();
+        let peers: Vec<PeerId> = peer_ids(&w, n_peers);
         let inner = GaugeSvc { st: Default::default(), fabric: w.fabric.clone() };
         let layer = InflightLimitLayer::new(limit, if block { WaitMode::Block } else { WaitMode::ReturnError });
         // every caller uses its own clone of the layered service (as connection handlers do)
@@ -302,7 +320,7 @@ fn run_c18_direct(input: RunInput) -> ScenFuture {
         let mut reached = false;
         for (p, m) in &maxg {
             if *m as usize > limit {
-                w.violate("inflight-limit-exceeded", key.clone(), format!("{m} requests of peer {} executed inside the wrapped service at once (limit {limit})", p.0[0]));
+                w.violate("inflight-limit-exceeded", key.clone(), format!("{m} requests of peer {} executed inside the wrapped service at once (limit {limit})", p.0[31]));
             }
             if *m as usize == limit {
                 reached = true;
@@ -553,7 +571,7 @@ fn run_c19(input: RunInput) -> ScenFuture {
         let inner = GaugeSvc { st: Default::default(), fabric: w.fabric.clone() };
         let layer = RateLimitLayer::new(quota, if block { RWait::Block } else { RWait::ReturnError });
         let layered = layer.layer(inner.clone());
-        let peers: Vec<PeerId> = (0..n_peers).map(|i| PeerId([i as u8 + 1; 32])).collect();
+        let peers: Vec<PeerId> = peer_ids(&w, n_peers);
         let mut r = w.rng("wl:c19");
         let results: Arc<Mutex<Vec<(u64, usize, Option<Result<(), (StatusCode, Option<String>)>>)>>> = Default::default();
         let mut tasks = Vec::new();
@@ -890,7 +908,7 @@ fn run_c19_virtual(input: RunInput) -> ScenFuture {
         // same instants): quotas are per peer, so peer 0 must fare identically in both
         let inner_solo = GaugeSvc { st: Default::default(), fabric: w.fabric.clone() };
         let solo = RateLimitLayer::new(quota, mode).layer(inner_solo.clone());
-        let peers: Vec<PeerId> = (0..n_peers).map(|i| PeerId([i as u8 + 1; 32])).collect();
+        let peers: Vec<PeerId> = peer_ids(&w, n_peers);
         let mut r = w.rng("wl:c19v");
         // arrivals: clustered bursts and isolated requests over the span
         let span_ms = (span_periods * period_ms).max(1);
@@ -1133,6 +1151,12 @@ fn run_c20_direct(input: RunInput) -> ScenFuture {
                 allowed.insert(c);
             }
         }
+        // two authorization layers stacked (a service-wide list and a stricter one inside, as with a
+        // router's route_layer): a request is served only if both accept its sender
+        let stacked = !closure_auth && w.flag("stacked_allow_lists", 0.3);
+        let inner_allowed: BTreeSet<PeerId> = allowed.iter().copied().filter(|_| !stacked || r.gen_bool(0.6)).collect();
+        // the middleware built through its layer or directly with the service's own constructor
+        let direct_ctor = w.flag("built_with_the_service_constructor", 0.4);
         let log: Arc<Mutex<Vec<u64>>> = Default::default();
         let log2 = log.clone();
         // the wrapped service counts as invoked the moment `call` is entered (a service may do its
@@ -1183,7 +1207,7 @@ fn run_c20_direct(input: RunInput) -> ScenFuture {
             } else {
                 match sender {
                     None => Want { accept: false, status: StatusCode::InternalServerError, body: String::new() },
-                    Some(s) if allowed.contains(&s) => Want { accept: true, status: StatusCode::Success, body: format!("served-{id}") },
+                    Some(s) if allowed.contains(&s) && inner_allowed.contains(&s) => Want { accept: true, status: StatusCode::Success, body: format!("served-{id}") },
                     Some(_) => Want { accept: false, status: StatusCode::NotFound, body: String::new() },
                 }
             };
@@ -1212,12 +1236,35 @@ fn run_c20_direct(input: RunInput) -> ScenFuture {
                 }
             };
         }
-        if closure_auth {
-            let svc = RequireAuthorizationLayer::new(closure).layer(inner);
-            drive!(svc);
-        } else {
-            let svc = RequireAuthorizationLayer::new(AllowedPeers::new(allowed.iter().copied())).layer(inner);
-            drive!(svc);
+        use anemo_tower::auth::RequireAuthorization;
+        match (closure_auth, direct_ctor, stacked) {
+            (true, false, _) => {
+                let svc = RequireAuthorizationLayer::new(closure).layer(inner);
+                drive!(svc);
+            }
+            (true, true, _) => {
+                let svc = RequireAuthorization::new(inner, closure);
+                drive!(svc);
+            }
+            (false, false, false) => {
+                let svc = RequireAuthorizationLayer::new(AllowedPeers::new(allowed.iter().copied())).layer(inner);
+                drive!(svc);
+            }
+            (false, true, false) => {
+                let svc = RequireAuthorization::new(inner, AllowedPeers::new(allowed.iter().copied()));
+                drive!(svc);
+            }
+            (false, false, true) => {
+                let svc = RequireAuthorizationLayer::new(AllowedPeers::new(allowed.iter().copied())).layer(RequireAuthorizationLayer::new(AllowedPeers::new(inner_allowed.iter().copied())).layer(inner));
+                drive!(svc);
+            }
+            (false, true, true) => {
+                let svc = RequireAuthorization::new(RequireAuthorization::new(inner, AllowedPeers::new(inner_allowed.iter().copied())), AllowedPeers::new(allowed.iter().copied()));
+                drive!(svc);
+            }
+        }
+        if stacked {
+            w.probe("stacked-allow-lists");
         }
         futures::future::join_all(tasks).await;
         let served: Vec<u64> = log.lock().unwrap().clone();
